@@ -289,7 +289,7 @@ def run_live(ctx):
 
 def run(ctx):
     rng = ctx.rng("c02")
-    n = max(1, ctx.pick(40, 640) // ctx.nshards)
+    n = max(1, ctx.pick(40, 4000) // ctx.nshards)
     for i in range(n):
         run_tree(ctx, rng, i + ctx.shard)
     if ctx.shard == 0:
